@@ -243,3 +243,32 @@ package lower
 //@   at append assert [f16-bits] int(typeHandle) < len(l.module.Types) && is(l.module.Types[int(typeHandle)].Inner, ir.ScalarType) && cscalar(l, typeHandle).Kind == ir.ScalarFloat && cscalar(l, typeHandle).Width == 2 ==> is(arg1[0].Value, ir.ScalarValue) && arg1[0].Value.(ir.ScalarValue).Bits <= 0xffff && same(fromhalfbits(uint16(arg1[0].Value.(ir.ScalarValue).Bits)), tohalf(float32(floatVal)))
 //@   at append assert [f32-bits] int(typeHandle) < len(l.module.Types) && is(l.module.Types[int(typeHandle)].Inner, ir.ScalarType) && cscalar(l, typeHandle).Kind == ir.ScalarFloat && cscalar(l, typeHandle).Width == 4 ==> is(arg1[0].Value, ir.ScalarValue) && arg1[0].Value.(ir.ScalarValue).Bits <= 0xffffffff && same(f32frombits(uint32(arg1[0].Value.(ir.ScalarValue).Bits)), float32(floatVal))
 //@   at append assert [f64-bits] int(typeHandle) < len(l.module.Types) && is(l.module.Types[int(typeHandle)].Inner, ir.ScalarType) && cscalar(l, typeHandle).Kind == ir.ScalarFloat && cscalar(l, typeHandle).Width == 8 ==> is(arg1[0].Value, ir.ScalarValue) && same(f64frombits(arg1[0].Value.(ir.ScalarValue).Bits), floatVal)
+
+// ---- the "inside a loop" flag is restored after every loop construct (C01) ---------------------
+//
+// A `var x = <const>;` is hoisted into the variable's initialiser only outside
+// loops; inside a loop it must be re-initialised every iteration. The flag that
+// tells the lowerer where it is must have its previous value again when a loop
+// construct has been lowered (nested loops, code after an inner loop).
+//
+// (lowerFor lowers its init statement before it saves the flag: the clause is
+// stated at the exits that follow the save, against the saved value.)
+//@ func (*Lowerer).lowerFor
+//@   mode bv
+//@   tags C01
+//@   at return assert [inside-loop-flag-restored] l.isInsideLoop == prevInsideLoop
+//
+//@ func (*Lowerer).lowerWhile
+//@   mode bv
+//@   tags C01
+//@   ensures [inside-loop-flag-restored] l.isInsideLoop == old(l.isInsideLoop)
+//
+//@ func (*Lowerer).lowerLoop
+//@   mode bv
+//@   tags C01
+//@   ensures [inside-loop-flag-restored] l.isInsideLoop == old(l.isInsideLoop)
+//
+//@ func (*Lowerer).popScope
+//@   mode bv
+//@   tags C01
+//@   assigns l.scopeStack
